@@ -45,6 +45,14 @@ namespace RT
 def MemoOK (s : PState) : Prop :=
   ∀ e ∈ s.memo, e.2.b = false → e.2.end.pos.off = e.1.1
 
+/-- `globalStore` as the most recent code block left it (or the initial one) -/
+def lastGlobal (E : Env) : List Event → Store
+  | [] => E.opts.initGlobal
+  | ev :: _ => ev.gout
+
+/-- the parser itself never writes `globalStore` -/
+def GInv (E : Env) (s : PState) : Prop := s.global = lastGlobal E s.trace
+
 /-- the part of the frame relation that composes (reflexive, transitive) -/
 structure Stk (E : Env) (s s' : PState) : Prop where
   cnt : s.exprCnt ≤ s'.exprCnt
@@ -54,6 +62,15 @@ structure Stk (E : Env) (s s' : PState) : Prop where
   recov : s'.recoveryStack = s.recoveryStack
   invert : s'.maxFailInvert = s.maxFailInvert
   noState : E.useState = false → s'.state = s.state
+  /-- the budget is respected -/
+  bnd : ∀ n, E.opts.maxExpr = some n → s.exprCnt ≤ n → s'.exprCnt ≤ n
+  /-- globalStore is whatever the most recent code block left -/
+  ginv : GInv E s → GInv E s'
+
+/-- what is known of the state in which a panic was raised -/
+structure PanicPost (E : Env) (s s' : PState) : Prop where
+  cnt : s.exprCnt ≤ s'.exprCnt
+  bnd : ∀ n, E.opts.maxExpr = some n → s.exprCnt ≤ n → s'.exprCnt ≤ n + 1
 
 /-- relation between the state before and after a normal return -/
 structure Framed (E : Env) (s : PState) (ok : Bool) (s' : PState) : Prop where
@@ -63,7 +80,7 @@ structure Framed (E : Env) (s : PState) (ok : Bool) (s' : PState) : Prop where
   memo : MemoOK s'
 
 def FrameInv (E : Env) (s : PState) (o : Outcome) : Prop :=
-  MemoOK s → o.Sat (fun _ ok s' => Framed E s ok s') (fun s' => s.exprCnt ≤ s'.exprCnt)
+  MemoOK s → o.Sat (fun _ ok s' => Framed E s ok s') (fun s' => PanicPost E s s')
 
 end RT
 end PV
@@ -89,19 +106,21 @@ macro_rules
 
 set_option autoImplicit true
 
-frame_lemmas (pushV s) unfolding pushV : exprCnt rstack recoveryStack maxFailInvert state pt memo errs global end
-frame_lemmas (popV s) unfolding popV : exprCnt rstack recoveryStack maxFailInvert state pt memo errs global end
-frame_lemmas (pushRecovery s l r) unfolding pushRecovery : exprCnt rstack vstack maxFailInvert state pt memo errs global end
-frame_lemmas (popRecovery s) unfolding popRecovery : exprCnt rstack vstack maxFailInvert state pt memo errs global end
-frame_lemmas (setLabel s l v) unfolding setLabel : exprCnt rstack recoveryStack maxFailInvert state pt memo errs global end
-frame_lemmas (addErrAt E s m p) unfolding addErrAt : exprCnt rstack vstack recoveryStack maxFailInvert state pt memo global end
-frame_lemmas (addErr E s m) unfolding addErr addErrAt : exprCnt rstack vstack recoveryStack maxFailInvert state pt memo global end
-frame_lemmas (failAt s b p w) unfolding failAt : exprCnt rstack vstack recoveryStack maxFailInvert state pt memo errs global end
-frame_lemmas (restore s p) unfolding restore : exprCnt rstack vstack recoveryStack maxFailInvert state memo errs global end
-frame_lemmas (restoreState E s st) unfolding restoreState : exprCnt rstack vstack recoveryStack maxFailInvert pt memo errs global end
-frame_lemmas (setMemoized s p k t) unfolding setMemoized : exprCnt rstack vstack recoveryStack maxFailInvert state pt errs global end
-frame_lemmas (incChoiceAlt E s l c a) unfolding incChoiceAlt : exprCnt rstack vstack recoveryStack maxFailInvert state pt memo errs global end
-frame_lemmas (read E s) unfolding read addErr addErrAt : exprCnt rstack vstack recoveryStack maxFailInvert state memo global end
+frame_lemmas (pushV s) unfolding pushV : exprCnt rstack recoveryStack maxFailInvert state pt memo errs global trace nCalls end
+frame_lemmas (popV s) unfolding popV : exprCnt rstack recoveryStack maxFailInvert state pt memo errs global trace nCalls end
+frame_lemmas (pushRecovery s l r) unfolding pushRecovery : exprCnt rstack vstack maxFailInvert state pt memo errs global trace nCalls end
+frame_lemmas (popRecovery s) unfolding popRecovery : exprCnt rstack vstack maxFailInvert state pt memo errs global trace nCalls end
+frame_lemmas (setLabel s l v) unfolding setLabel : exprCnt rstack recoveryStack maxFailInvert state pt memo errs global trace nCalls end
+frame_lemmas (addErrAt E s m p) unfolding addErrAt : exprCnt rstack vstack recoveryStack maxFailInvert state pt memo global trace nCalls end
+frame_lemmas (addErr E s m) unfolding addErr addErrAt : exprCnt rstack vstack recoveryStack maxFailInvert state pt memo global trace nCalls end
+frame_lemmas (addErrAtOpt E s o p) unfolding addErrAtOpt addErrAt : exprCnt rstack vstack recoveryStack maxFailInvert state pt memo global trace nCalls end
+frame_lemmas (addErrOpt E s o) unfolding addErrOpt addErrAtOpt addErrAt : exprCnt rstack vstack recoveryStack maxFailInvert state pt memo global trace nCalls end
+frame_lemmas (failAt s b p w) unfolding failAt : exprCnt rstack vstack recoveryStack maxFailInvert state pt memo errs global trace nCalls end
+frame_lemmas (restore s p) unfolding restore : exprCnt rstack vstack recoveryStack maxFailInvert state memo errs global trace nCalls end
+frame_lemmas (restoreState E s st) unfolding restoreState : exprCnt rstack vstack recoveryStack maxFailInvert pt memo errs global trace nCalls end
+frame_lemmas (setMemoized s p k t) unfolding setMemoized : exprCnt rstack vstack recoveryStack maxFailInvert state pt errs global trace nCalls end
+frame_lemmas (incChoiceAlt E s l c a) unfolding incChoiceAlt : exprCnt rstack vstack recoveryStack maxFailInvert state pt memo errs global trace nCalls end
+frame_lemmas (read E s) unfolding read addErr addErrAt : exprCnt rstack vstack recoveryStack maxFailInvert state memo global trace nCalls end
 frame_lemmas (callBlock E b s).2 unfolding callBlock : exprCnt rstack vstack recoveryStack maxFailInvert pt memo errs end
 
 end RT
